@@ -447,8 +447,10 @@ def gen_specs(rng, tier):
     for fam in ("conv2d", "conv1d", "depthwise"):
       for (pad, st, dil) in geoms[fam]:
         pat = SIGN_PATTERNS[k % len(SIGN_PATTERNS)] + ("/flip" if (k // 3) % 2 else "")
-        if rep == 0 and pad != "valid" and k % 2 == 0:
-          pat = ["first_neg", "last_neg", "first_pos", "last_pos"][(k // 2) % 4]      # aimed at the padded rows
+        if rep == 0 and pad == "causal":
+          pat = ["first_neg", "first_pos"][k % 2]                                # causal pads at the beginning
+        elif rep == 0 and pad == "same":
+          pat = ["first_neg", "last_neg", "first_pos", "last_pos"][k % 4]        # aimed at the padded rows (even sizes: the end)
         ks = ksizes[k % len(ksizes)] if (rep or pad == "valid" or k % 3) else (3, 3)
         if fam == "conv1d":
           ks = (max(ks), 1)
@@ -935,6 +937,7 @@ def run(run: core.Run, tier: str):
   from qkeras.estimate import analyze_accumulator, analyze_accumulator_from_sample
   from absl import logging as absl_logging
   absl_logging.set_verbosity(absl_logging.FATAL)
+  tf.get_logger().setLevel("ERROR")         # Model.predict of many small models: "tf.function retracing" warnings
   rng = np.random.default_rng(run.seed)
   tf.random.set_seed(int(run.seed))         # bernoulli samples in every call; keep the run reproducible
   run.extra["rule"] = (
@@ -952,7 +955,13 @@ def run(run: core.Run, tier: str):
       "QTools(is_inference=True) with model_weights_already_quantized False (re-quantized) or True (constants stored "
       "quantized), and is_inference=False again on the same model (must equal the first); aimed inference cases: po2 "
       "kernels / biases whose largest-magnitude constant is negative only / positive only / tied, at and below the "
-      "type's top exponent; inputs: all-max, all-min, sign-aligned and anti-aligned with "
+      "type's top exponent; ESTIMATOR: stream est_geom = single layers with padding same / causal / valid, strides 2, "
+      "dilation 2, odd / even kernel sizes, kernels whose sign follows the tap position, sized by analyze_accumulator for "
+      "12 stated ranges (containing / touching / excluding zero, degenerate points, both signs; tuple / list / ndarray / "
+      "numpy-scalar / int forms), every other estimator model additionally for two zero-excluding ranges; measured on the "
+      "exact worst-case corner of every output element (from the real layer's impulse responses); "
+      "analyze_accumulator_from_sample(conservative) on batches whose first sample spans / does not span the batch range, "
+      "with one and with two quantized layers; inputs: all-max, all-min, sign-aligned and anti-aligned with "
       "each output channel's effective kernel, random lattice points; non-trivial = distinct (stream, family, "
       "weight/bias/activation quantizers, kernel shape); every tensor value is judged by Lean Val on the type "
       "the REAL QTools reported")
